@@ -36,6 +36,12 @@ SYMBOL_TASKS = [
     ('r :- p(hp, tp), hp1 < hp, tp_ < tp.', 'r :- p(hp, tp).'),
     ('p(p, p) :- p. p :- p(p0, p__s).', 'p(p, p) :- p, not p(p0, p__s).'),
     ('q(X) :- p(X), hs >= X, hs0 != X. s :- p(hs).', 'q(X) :- p(X), X <= hs, X != hs0. s :- p(hs).'),
+    # names whose numeric and lexicographic orders disagree, mixed case, digits in the middle
+    ('p :- v2 < v10.', 'p.'), ('p(v2, v10, v1, v01, v9, v10a, c9, c10, a9, a1b, a10).', 'p(v2, v10, v1, v01, v9, v10a, c9, c10, a9, a1b, a10) :- not q.'),
+    ('p(aB, ab, aA, a_b, a0b, aZ, az).', 'p(aB, ab, aA, a_b, a0b, aZ, az) :- not q.'),
+    # constants that literally end in the renaming suffix, next to the propositional atom and/or the constant they could be mistaken for
+    ('q :- x, hx__s < hx0.', 'q :- x, hx0 > hx__s.'), ('q :- x, hx__s < hx0, hx != hx__s.', 'q :- x, hx0 > hx__s, hx__s != hx.'),
+    ('q(hx, hx__s, hx__s__s, hx_) :- x.', 'q(hx, hx__s, hx__s__s, hx_) :- x, not not x.'),
 ]
 EXT_SYMBOL_TASKS = [
     ('renamed-symbol-order', 'program', 'q :- p < p0, p.', 'q :- p < p0, p, not r. r :- not p.', 'input: p/0. output: q/0.'),
@@ -44,7 +50,24 @@ EXT_SYMBOL_TASKS = [
      'r :- p(aux_), aux = aux, auxA = aux0.', 'input: p/1. output: r/0.'),
     ('renamed-symbol-in-every-comparison-position', 'program', 'p(X) :- q(X), r >= X. r :- q(r). p(X) :- q(X), r0 < r, r < X, X != r.',
      'p(X) :- q(X), X <= r. r :- q(r). p(X) :- q(X), r > r0, X > r, r != X.', 'input: q/1. output: p/1. output: r/0.'),
+    ('renamed-symbol-clashing-atom-only-in-another-conjecture', 'spec', 'spec: forall X (q(X) <-> r(X) and X != p and X != p0).',
+     'q(X) :- r(X), X != p, X != p0. p :- r(1).', 'input: r/1. output: q/1. output: p/0.'),
+    ('renamed-symbol-clashing-atom-only-in-another-conjecture-2', 'program', 't(X) :- r(X), p0 < X, X < p1, X != p.',
+     't(X) :- r(X), p0 < X, X < p1, p != X. p :- r(1).', 'input: r/1. output: t/1. output: p/0.'),
+    ('literal-suffix-constants', 'program', 't(X) :- r(X), p__s < X, X < p0, X != p. p :- r(1).',
+     't(X) :- r(X), X > p__s, p0 > X, p != X. p :- r(1).', 'input: r/1. output: t/1. output: p/0.'),
     ('renamed-symbol-between', 'program', 'q(p, p0, p_, pa) :- p.', 'q(p, p0, p_, pa) :- p, not r. r :- not p.', 'input: p/0. output: q/4.'),
+]
+
+
+OUTLINE_TASKS = [
+    ('outline-symbols-only-in-lemmas', 'q(X) :- p(X), X != a.', 'q(X) :- p(X), a != X.', 'input: p/1. output: q/1.',
+     'lemma(forward): forall X (q(X) -> X != a and (X = b0 or X != b0)). inductive-lemma: forall N$i (N$i >= 0 -> (q(N$i) -> N$i != b)). '
+     'definition: forall X (dd(X) <-> p(X) and X = c_). lemma(backward): forall X (dd(X) -> X = c_ and cA != c_).'),
+    ('outline-renamed-symbol-only-in-lemma', 'q :- p(X), X != a. r(X) :- p(X), not q.', 'q :- p(X), a != X. r(X) :- p(X), not q.',
+     'input: p/1. output: r/1. output: q/0.',
+     'lemma(forward): forall X (p(X) and X != q and q0 != X -> X != q or q). definition: forall X (dd(X) <-> p(X) and X = q). '
+     'lemma(backward): forall X (dd(X) -> X = q and q != q_).'),
 ]
 
 
@@ -61,20 +84,37 @@ def generate(tier, seed):
         items.append({'family': 'strong-generated', 'kind': 'strong', 'left': l, 'right': r, 'label': '%s || %s' % (l, r)})
     for t in EXT_SYMBOL_TASKS + list(EXT_TASKS):
         items.append({'family': 'external-corpus', 'kind': 'external', 'task': t, 'label': t[0]})
+    # tasks with proof outlines: the outline problems carry the same self-made axioms (symbols that occur only in a lemma,
+    # only in a definition, or only in the conjecture of an outline problem)
+    for (name, l, r, ug, po) in OUTLINE_TASKS:
+        items.append({'family': 'external-outline', 'kind': 'external', 'task': (name, 'program', l, r, ug), 'outline': po, 'label': name})
     return items
 
 
-def original_symbol(d, names_in_task, declared):
-    """Which symbolic constant of the task a declared TFF constant stands for, read off the *input*: a declared constant
-    that is not written anywhere in the task can only be a renamed one. Under anthem's scheme <name>__s stands for <name>;
-    under any other scheme the reading is accepted when exactly one name of the task is a prefix of the constant and is not
-    declared as a constant itself. A constant that is written in the task stands for itself."""
-    if d in names_in_task:
-        return d
-    if d.endswith('__s') and d[:-3] in names_in_task:
-        return d[:-3] if d[:-3] not in declared else d
-    stems = [c for c in names_in_task if d.startswith(c) and c not in declared]
-    return stems[0] if len(stems) == 1 else d
+def order_axiom_result(it, meaning, base, item, p, rq, rs):
+    r = dict(base)
+    r.update(key='%s#%s#%s' % (item['label'], p['name'], it['name']), input='%s [%s %s]' % (item['label'], p['name'], it['name']),
+             output=render_ast(it['body']),
+             obligation='the ordering axiom is true when every symbolic constant denotes its original name (lexicographic order)')
+
+    def build(kw):
+        ctx = Ctx(**kw)
+        f = tff.Interp(ctx, meaning).formula(it['body'])
+        for s in meaning.values():
+            ctx.symbol(s[1])
+        return ctx.order_axioms() + ctx.symbol_facts(), f
+    try:
+        res = valid(build)
+    except tff.TffError as e:
+        r.update(verdict='observation', detail='axiom not interpretable (C09): %s' % e)
+        return r
+    r.update(verdict=res['verdict'], ms=res['ms'])
+    if res['verdict'] == 'sat':
+        r.update(signature='symbol-order-axiom-false',
+                 detail='%s is false in the standard order of the original symbol names (read as %s)' % (
+                     render_ast(it['body']), meaning),
+                 replay={'request': render(rq), 'expected': render(rs), 'smt2': res['smt2']})
+    return r
 
 
 def is_order_axiom(body, decl_symbols):
@@ -154,16 +194,21 @@ def check_item(item):
         rp = b.call('parse_program', Q(item['right']))[0]
         preds = sorted(asp_preds(lp) | asp_preds(rp))
     else:
-        req, resp = run_task(b, item['task'], 'universal', 'sequential', True, True)
+        req, resp = run_task(b, item['task'], 'universal', 'sequential', True, True, outline=item.get('outline', ''))
         if resp[0][:1] == ('refused',):
             return [{'family': item['family'], 'key': item['label'], 'input': item['label'], 'verdict': 'skipped'}]
         payload = resp[0]
+        # the independent decomposition too: its problems contain fewer formulas (a clashing atom may be absent)
+        req_i, resp_i = run_task(b, item['task'], 'universal', 'independent', False, True, outline=item.get('outline', ''))
+        if resp_i[0][:1] != ('refused',):
+            payload = tuple(payload) + tuple(('problem', Q('independent:' + str(q[1]))) + tuple(q[2:]) for q in resp_i[0])
         preds = []
     problems = parse_problems(payload)
-    texts = (item['left'], item['right']) if item['kind'] == 'strong' else item['task'][2:5]
+    texts = (item['left'], item['right']) if item['kind'] == 'strong' else tuple(item['task'][2:5]) + (item.get('outline', ''),)
     names_in_task = input_names(*texts)
     seen_texts = set()
     for p in problems:
+        rq, rs = (req_i, resp_i) if p['name'].startswith('independent:') else (req, resp)
         base = {'family': item['family'], 'input_key': item['label'], 'twin': item.get('twin', False), 'nontrivial': True}
         try:
             items = tff.parse_problem(p['text'])
@@ -182,48 +227,47 @@ def check_item(item):
         # ---- (b) symbol order chain
         if key_part not in seen_texts:
             seen_texts.add(key_part)
-            meaning = {s: ('sym', original_symbol(s, names_in_task, decl_symbols)) for s in decl_symbols}
+            # what the declared constants stand for is read off the task text (tasks.symbol_readings); when more than one
+            # reading is consistent (a constant literally written <name>__s next to a renamed <name>), the axioms must all be
+            # true under one of them
+            readings = symbol_readings(set(decl_symbols), names_in_task) or [{}]
             links = []
+            results_by_reading = []
+            for table in readings:
+                meaning = {s: ('sym', table.get(s, s)) for s in decl_symbols}
+                results_by_reading.append((meaning, [order_axiom_result(it, meaning, base, item, p, rq, rs) for it in order_ax]))
+            results_by_reading.sort(key=lambda mr: sum(1 for r in mr[1] if r.get('verdict') == 'sat'))
+            meaning, rs_ = results_by_reading[0]
+            out.extend(rs_)
             for it in order_ax:
-                r = dict(base)
-                r.update(key='%s#%s#%s' % (item['label'], p['name'], it['name']), input='%s [%s %s]' % (item['label'], p['name'], it['name']),
-                         output=render_ast(it['body']),
-                         obligation='the ordering axiom is true when every symbolic constant denotes its original name (lexicographic order)')
-
-                def build(kw, it=it):
-                    ctx = Ctx(**kw)
-                    f = tff.Interp(ctx, meaning).formula(it['body'])
-                    for s in meaning.values():
-                        ctx.symbol(s[1])
-                    return ctx.order_axioms() + ctx.symbol_facts(), f
-                try:
-                    res = valid(build)
-                except tff.TffError as e:
-                    r.update(verdict='observation', detail='axiom not interpretable (C09): %s' % e)
-                    out.append(r)
-                    continue
-                r.update(verdict=res['verdict'], ms=res['ms'])
-                if res['verdict'] == 'sat':
-                    r.update(signature='symbol-order-axiom-false',
-                             detail='%s is false in the standard order of the original symbol names (read as %s)' % (
-                                 render_ast(it['body']), meaning),
-                             replay={'request': render(req), 'expected': render(resp), 'smt2': res['smt2']})
-                out.append(r)
                 b_ = it['body']
-                if b_[0] == 'atomf' and b_[1][1] == 'p__less__':
-                    a1, a2 = b_[1][2]
-                    if a1[1] == 'f__symbolic__' and a2[1] == 'f__symbolic__':
-                        links.append((a1[2][0][1], a2[2][0][1]))
+                a1, a2 = b_[1][2]
+                links.append((a1[2][0][1], a2[2][0][1]))
             r = dict(base)
             r.update(key='%s#%s#chain' % (item['label'], p['name']), input='%s [%s chain]' % (item['label'], p['name']),
-                     obligation='the ordering axioms form one chain through every declared symbolic constant, so any two are '
-                                'provably distinct')
-            chain_ok = len(links) == max(0, len(decl_symbols) - 1) and all(links[i][1] == links[i + 1][0] for i in range(len(links) - 1))
-            covered = set(x for l in links for x in l)
-            if len(decl_symbols) >= 2 and (not chain_ok or covered != set(decl_symbols)):
+                     obligation='the ordering axioms (with transitivity) order every pair of declared symbolic constants, so any '
+                                'two are provably distinct')
+            # the links (each separately shown true above) must order every pair of declared constants, directly or through
+            # transitivity (a preamble axiom): the transitive closure of the links is a strict total order on them
+            reach = {s: set() for s in decl_symbols}
+            for (a_, b2) in links:
+                if a_ in reach:
+                    reach[a_].add(b2)
+            changed = True
+            while changed:
+                changed = False
+                for s in decl_symbols:
+                    new = set()
+                    for t in reach[s]:
+                        new |= reach.get(t, set())
+                    if not new <= reach[s]:
+                        reach[s] |= new
+                        changed = True
+            chain_ok = all((b2 in reach[a_]) != (a_ in reach[b2]) for i_, a_ in enumerate(decl_symbols) for b2 in decl_symbols[i_ + 1:])
+            if len(decl_symbols) >= 2 and not chain_ok:
                 r.update(verdict='violation-concrete', signature='symbol-order-chain',
                          detail='links %s do not chain through the symbols %s' % (links, decl_symbols),
-                         replay={'request': render(req), 'expected': render(resp)})
+                         replay={'request': render(rq), 'expected': render(rs)})
             else:
                 r.update(verdict='held-concrete')
             out.append(r)
@@ -254,7 +298,7 @@ def check_item(item):
                 r.update(verdict=res['verdict'], ms=res['ms'])
                 if res['verdict'] == 'sat':
                     r.update(signature='transition-axiom-false', detail='%s is not valid for H<=T: %s' % (f['tptp'], driver.model_text(res['model'], 500)),
-                             replay={'request': render(req), 'expected': render(resp), 'smt2': res['smt2']})
+                             replay={'request': render(rq), 'expected': render(rs), 'smt2': res['smt2']})
                 out.append(r)
             # coverage: one transition axiom per predicate (name/arity)
             r = dict(base)
@@ -267,7 +311,7 @@ def check_item(item):
             missing = [pr for pr in preds if (copies[pr][0], pr[1]) not in have or (copies[pr][1], pr[1]) not in have]
             if missing:
                 r.update(verdict='violation-concrete', signature='transition-axiom-missing',
-                         detail='no transition axiom for %s' % missing, replay={'request': render(req), 'expected': render(resp)})
+                         detail='no transition axiom for %s' % missing, replay={'request': render(rq), 'expected': render(rs)})
             else:
                 r.update(verdict='held-concrete')
             out.append(r)
